@@ -16,7 +16,7 @@ from ..astutil import calls_in, call_name, where
 from ..facts import instance_fields
 from .. import analysis
 from ..model import AnalysisError, FuncInfo, unparse, walk_no_nested, canonical_name
-from ..symtext import Expander
+from ..symtext import Expander, effect_calls
 from ..raises import Raises
 from . import common_tables as ct
 from .rules_card import format_cardinality_rule, cardinality_validation_rule, cardinality_roundtrip
@@ -158,25 +158,10 @@ def run(prog, rep):
             rep.check(not ws, "ENF-1", "%s.%s only validates and prints" % (cname, helper), "no write to the object or anything reachable from it",
                       "the helper modifies the object: %s" % ["%s.%s in %s" % (w.origin, w.field, w.func) for w in ws[:3]], h.where)
             # which rule is registered: follow private helpers of the same class one level, substituting the actual arguments
-            regs = []
-            for c in calls_in(h.node):
-                if call_name(c).endswith(".register_custom_handler") and len(c.args) == 2:
-                    regs.append((c.args[0], c.args[1]))
-                for tg in S.targets(c, h):
-                    if isinstance(tg, FuncInfo) and tg.cls is not None and tg.name.startswith("_") and tg.qualname != h.qualname:
-                        actual = {}
-                        params = tg.params[1:] if unparse(c.func).startswith("%s." % h.params[0]) else tg.params
-                        for i, aexp in enumerate(c.args):
-                            if i < len(params):
-                                actual[params[i]] = aexp
-                        for kwd in c.keywords:
-                            if kwd.arg:
-                                actual[kwd.arg] = kwd.value
-                        for c2 in calls_in(tg.node):
-                            if call_name(c2).endswith(".register_custom_handler") and len(c2.args) == 2:
-                                regs.append(tuple(actual.get(x.id, x) if isinstance(x, ast.Name) else x for x in c2.args))
+            regs = [(e.call.args[0], e.call.args[1]) for e in
+                    effect_calls(prog, h, lambda c: isinstance(c.func, ast.Attribute) and c.func.attr == "register_custom_handler" and len(c.args) == 2)]
             good = len(regs) == 1 and isinstance(regs[0][0], ast.Constant) and regs[0][0].value == kind \
-                and unparse(regs[0][1]) == "validation.%s" % rulefn
+                and canonical_name(prog, h, regs[0][1]) == "validation.%s" % rulefn
             rep.check(good, "ENF-1", "%s.%s registers %s for '%s'" % (cname, helper, rulefn, kind), "ok",
                       "the helper registers %s" % [(unparse(x), unparse(y)) for x, y in regs], h.where,
                       witness="the warning printed on assignment belongs to another rule or never appears")
